@@ -68,6 +68,10 @@ package gohbase
 //@   at call append#1 ghost retrymark[rpc] == ghost("round")
 //@   at call append#2 ghost retrymark[rpc] == ghost("round")
 // (every call waited for has been routed: getRegionAndClientForRPC set its region; the connection cache is shared state)
+// a failure is charged to the connection the calls were queued on - not to whatever connection the region has by now
+// (which may be the healthy replacement; taking that one down would make the next put dial a third connection) (C20)
+//@   at call handleResultError#1 assert[C20] arg2 == rc
+//@   at call handleResultError#2 assert[C20] arg2 == rc
 //@   at call handleResultError#1 assume-shared ghostat("callregion", rpc) != nil && rccNonNil(c.clients)
 //@   at call handleResultError#2 assume-shared ghostat("callregion", rpc) != nil && rccNonNil(c.clients)
 //@   ensures[C12] marksMonotone() && allMarked(retryables) && distinctCalls(retryables) && marksFrame(retryables)
@@ -325,7 +329,7 @@ package gohbase
 //@   loop 1 invariant[C17] backoff == sched(ghost("nsleeps") - old(ghost("nsleeps"))) && ghost("nsleeps") >= old(ghost("nsleeps"))
 //@   loop 1 invariant[C17] ghost("lookups") - old(ghost("lookups")) == ghost("nsleeps") - old(ghost("nsleeps"))
 // the only errors: unknown table, client closed, or the context passed in is done (C09 relies on this)
-//@   ensures[C09,C17] r2 == nil || r2 == TableNotFound || r2 == ErrClientClosed || ghostat("ctxdone", ctx) == 1
+//@   ensures[C04,C09,C17] r2 == nil || r2 == TableNotFound || r2 == ErrClientClosed || ghostat("ctxdone", ctx) == 1
 //@   ensures[C09] r2 == nil ==> r0 != nil && (r0 == c.adminRegionInfo || r0 == c.metaRegionInfo || (ghostat("unavail", r0) == 0 && !was(allocated(r0))))
 //@   ensures[C01] r2 == nil && !special(c, table) ==> routes(r0, table, key)
 
@@ -334,7 +338,7 @@ package gohbase
 //@   requires sleepAndIncreaseBackoffOverride == nil && establishRegionOverride == nil && c.logger != nil && c.adminRegionInfo != nil && c.metaRegionInfo != nil && len(table) <= 32764
 //@   modifies X.lookups, X.ctxdone, X.regionstate, X.slept, X.nsleeps, X.attempts, X.callregion, X.closereq, X.unavail, X.token, X.regclient
 //@   panics never[C01]
-//@   ensures[C01] r0 != nil && !special(c, table) ==> routes(r0, table, key)
+//@   ensures[C01,C12] r0 != nil && !special(c, table) ==> routes(r0, table, key)
 
 //@ func gohbase.(*client).getRegionForRpc
 //@   modifies X.lookups, X.ctxdone, X.regionstate, X.slept, X.nsleeps, X.attempts, X.callregion, X.closereq, X.unavail, X.token, X.regclient
@@ -482,6 +486,9 @@ package gohbase
 // never early: done only if the server said so, or the region scan is finished and no key of the requested range lies
 // beyond this region in scan direction ([start, stop) forward, (stop, start] reversed; empty bound = unbounded)
 //@   ensures[C06] r0 ==> (resp.MoreResults != nil && !*resp.MoreResults) || (s.curRegionScannerID == 18446744073709551615 && ite(s.rpc.Reversed(), len(region.StartKey()) == 0 || (len(s.rpc.StopRow()) != 0 && lexle(region.StartKey(), s.rpc.StopRow())), len(region.StopKey()) == 0 || (len(s.rpc.StopRow()) != 0 && lexle(s.rpc.StopRow(), region.StopKey()))))
+// and not late: when the server says the whole scan has no more results the scan ends, also while the region scanner is
+// still open (no further continuation request is sent)
+//@   ensures[C06,C14] resp.MoreResults != nil && !*resp.MoreResults ==> r0
 // and not late (forward): a finished region whose stop key is not below the scan's stop row ends the scan
 //@   ensures[C06] !r0 && !s.rpc.Reversed() && s.curRegionScannerID == 18446744073709551615 ==> len(region.StopKey()) != 0 && (len(s.rpc.StopRow()) == 0 || lexlt(region.StopKey(), s.rpc.StopRow()))
 
@@ -567,8 +574,11 @@ package gohbase
 
 //@ func gohbase.(*scanner).peek$renewCancel()
 //@   modifies X.ctxdone
+// a lease renewer is started only for a scanner that is still open (Close and the next fetch cancel it; started on a
+// closed scanner nothing would ever cancel it and its requests would open region scanners nobody closes)
 //@ func gohbase.(*scanner).renewLoop
-//@   trusted "lease renewal goroutine; started only while the scanner is open, cancelled before the next fetch and by Close"
+//@   trusted "lease renewal goroutine (ticker loop); cancelled before the next fetch and by Close"
+//@   requires[C14] !s.closed
 
 //@ func gohbase.(*scanner).peek
 //@   requires scannerWF(s)
@@ -629,4 +639,4 @@ package gohbase
 //@   requires len(table) <= 32764
 //@   modifies nothing
 //@   panics never[C01]
-//@   ensures[C01] r0 != nil && !special(c, table) ==> routes(r0, table, key)
+//@   ensures[C01,C12] r0 != nil && !special(c, table) ==> routes(r0, table, key)
